@@ -10,6 +10,7 @@ import (
 	"os"
 	"path/filepath"
 	"sort"
+	"strconv"
 	"strings"
 	"time"
 
@@ -25,16 +26,16 @@ const modPath = "github.com/google/pprof"
 
 // Program is the resolved view of /repo's current working tree.
 type Program struct {
-	Fset    *token.FileSet
-	Pkgs    []*packages.Package // module packages only, sorted by path
-	ByPath  map[string]*packages.Package
-	SSA     *ssa.Program
-	SSAPkgs map[string]*ssa.Package
-	AllFns  map[*ssa.Function]bool
-	cg      *callgraph.Graph
-	chaCG   *callgraph.Graph
-	RepoDir string
-	NumFns  int // module functions with bodies
+	Fset     *token.FileSet
+	Pkgs     []*packages.Package // module packages only, sorted by path
+	ByPath   map[string]*packages.Package
+	SSA      *ssa.Program
+	SSAPkgs  map[string]*ssa.Package
+	AllFns   map[*ssa.Function]bool
+	cg       *callgraph.Graph
+	chaCG    *callgraph.Graph
+	RepoDir  string
+	NumFns   int // module functions with bodies
 	mg       *modGraph
 	modTypes []*types.Named
 }
@@ -534,3 +535,5 @@ func readOverlay(file string) (map[string][]byte, error) {
 }
 
 func sortStrings(s []string) { sort.Strings(s) }
+
+func unquoteGo(s string) (string, error) { return strconv.Unquote(s) }
